@@ -27,6 +27,8 @@ SepsT == {46, 61}
 AsgsQ == {0, 61}
 ElemsQ == {<<>>, <<97>>, <<98, 97>>}
 NoStrs == {}
+Ends0 == {0}
+EndsQ == {0, 61}
 BoundP  == Len(pel) <= 3 /\ Len(po.buf) <= 6
 BoundPT == Len(pel) <= 4 /\ Len(po.buf) <= 8
 ViewP  == <<pel, po>>
